@@ -250,7 +250,9 @@ Inductive op :=
 | OExAccept (id : N) (xi : nat) (now : N)         (* accept_if: AcceptPending -> Owned *)
 | OExTimeout (id : N) (xi : nat) (now : N)        (* accept time-out: AcceptPending -> Dropped *)
 | OExDrop (id : N) (xi : nat) (retr ack : bool) (now : N)   (* Drop for Exchange *)
-| OSweep (now : N).                               (* handle_dropped_exchange *)
+| OSweep (now : N)                                (* handle_dropped_exchange *)
+| ORxExch (id : N) (now : N)                      (* receive path: a message that opens an exchange on [id] *)
+| ORemoveSet (ids : list N) (keep : option N).    (* Sessions::remove_for_fabric *)
 
 Inductive out := RNone | ROk | RId (id : N) | RIdx (i : nat) | RErr (c : N).
 
@@ -272,6 +274,41 @@ Fixpoint find_slot (p : option xst -> bool) (l : list session) : option (N * nat
 
 Definition xset (xi : nat) (v : option xst) (s : session) : session :=
   set_exch (upd_nth xi (fun _ => v) (s_exch s)) s.
+
+(** a new exchange on session [id]: [post_recv] for a peer's message ([pending]; a reserved slot is
+    never matched by the receive path) or [initiate_for_session] (owned) *)
+Definition ex_add (mx : nat) (s : st) (id : N) (pending : bool) (now : N) : st * out :=
+  match t_lookup id (tb s) with
+  | None => (s, RErr E_NOSESSION)
+  | Some x =>
+      if pending && s_reserved x then (s, RErr E_NOSESSION)   (* is_for_rx never matches a reserved slot *)
+      else match t_get id now (tb s) with                    (* get_for_rx / get: last_use refreshed first *)
+           | None => (s, RErr E_NOSESSION)
+           | Some t1 =>
+               if s_expired x then (mkSt t1 (hs s), RErr E_NOSESSION)
+               else match x_add mx (s_exch x) (if pending then XPending else XOwned) with
+                    | Some (x', i) => (mkSt (t_upd id (set_exch x') t1) (hs s), RIdx i)
+                    | None => (mkSt t1 (hs s), RErr E_NOSPACE_EXCH)
+                    end
+           end
+  end.
+
+(** [Sessions::remove_for_fabric]: [ids] are the sessions of that fabric (which sessions those are
+    is outside this model); the kept session is marked expired whatever its fabric *)
+Definition in_set (ids : list N) (keep : option N) (s : session) : bool :=
+  existsb (N.eqb (s_id s)) ids && match keep with Some k => negb (s_id s =? k) | None => true end.
+
+Definition t_remove_set (ids : list N) (keep : option N) (t : tbl) : tbl :=
+  let l := purge (length (t_sess t)) (in_set ids keep) (t_sess t) in
+  let l' := match keep with
+            | Some k =>
+                match find_idx (has_id k) l with
+                | Some i => upd_nth i (set_expired true) l
+                | None => l
+                end
+            | None => l
+            end in
+  mkT l' (t_next t).
 
 Definition step (cap mx : nat) (s : st) (o : op) : st * out :=
   match o with
@@ -335,21 +372,15 @@ Definition step (cap mx : nat) (s : st) (o : op) : st * out :=
       | None => (s, RNone)
       end
   | ORemovePase keep => (mkSt (t_remove_pase keep (tb s)) (hs s), ROk)
-  | OExAdd id pending now =>
-      match t_lookup id (tb s) with
-      | None => (s, RErr E_NOSESSION)
-      | Some x =>
-          if pending && s_reserved x then (s, RErr E_NOSESSION)   (* is_for_rx never matches a reserved slot *)
-          else match t_get id now (tb s) with                    (* get_for_rx / get: last_use refreshed first *)
-               | None => (s, RErr E_NOSESSION)
-               | Some t1 =>
-                   if s_expired x then (mkSt t1 (hs s), RErr E_NOSESSION)
-                   else match x_add mx (s_exch x) (if pending then XPending else XOwned) with
-                        | Some (x', i) => (mkSt (t_upd id (set_exch x') t1) (hs s), RIdx i)
-                        | None => (mkSt t1 (hs s), RErr E_NOSPACE_EXCH)
-                        end
-               end
+  | OExAdd id pending now => ex_add mx s id pending now
+  | ORxExch id now =>
+      (* handle_rx_packet: NoSpaceExchanges => the whole session is closed *)
+      match ex_add mx s id true now with
+      | (s1, RErr c) => if c =? E_NOSPACE_EXCH then (mkSt (t_remove id (tb s1)) (hs s1), RId id)
+                        else (s1, RErr c)
+      | r => r
       end
+  | ORemoveSet ids keep => (mkSt (t_remove_set ids keep (tb s)) (hs s), ROk)
   | OExAccept id xi now =>
       match t_lookup id (tb s) with
       | None => (s, RNone)
